@@ -215,6 +215,35 @@ vf_rb_post_data_get(const r_buf_t *r, const r_buf_rpos_t *rp, int was_valid,
 	return (1);
 }
 
+/* r_buf_rpos_inc, one-block step: the cursor names an existing block and is advanced by at
+ * most the rest of that block */
+static inline int
+vf_rb_inc_step_pre(const r_buf_t *r, const r_buf_rpos_t *rp, size_t data_size) {
+	if (!vf_rb_rpos_norm(r, rp))
+		return (0);
+	if (rp->round_num == r->round_num && rp->iov_index > r->iov_index)
+		return (0); /* "behind the writer" position: no block */
+	return (data_size <= r->iov[rp->iov_index].iov_len - rp->iov_off);
+}
+
+/* ... then it stays inside the block, or - after exactly the rest - stands at offset 0 of
+ * the NEXT block of the stream (next table entry; after the last remnant: block 0 of the
+ * current round) */
+static inline int
+vf_rb_post_inc_step(const r_buf_t *r, size_t idx, size_t off, size_t round, size_t data_size,
+    const r_buf_rpos_t *rp) {
+	const size_t rest = r->iov[idx].iov_len - off;
+
+	if (data_size == 0)
+		return (rp->iov_index == idx && rp->iov_off == off && rp->round_num == round);
+	if (data_size < rest)
+		return (rp->iov_index == idx && rp->iov_off == off + data_size &&
+		    rp->round_num == round);
+	if (round == r->round_num || idx < r->iov_index_max)
+		return (rp->iov_index == idx + 1 && rp->iov_off == 0 && rp->round_num == round);
+	return (rp->iov_index == 0 && rp->iov_off == 0 && rp->round_num == r->round_num);
+}
+
 #ifndef VF_REPLAY
 /* ------------------------------------------------------------------ contracts ---- */
 #define VF_RB_FRAME_W(r)							\
@@ -325,9 +354,27 @@ __CPROVER_ensures(vf_rb_post_data_get(r_buf, rpos, vf_rb_was_valid, data_size, i
 /* ghost: bytes available at the cursor before the call */
 extern size_t vf_rb_old_avail;
 
+#ifdef VF_RB_INC_STEP
+/* one-block step (cheap): see vf_rb_inc_step_pre / vf_rb_post_inc_step */
 void
 r_buf_rpos_inc(r_buf_p r_buf, r_buf_rpos_p rpos, size_t data_size)
-__CPROVER_requires(r_buf != NULL && vf_rb_wf(r_buf))
+__CPROVER_requires(r_buf != NULL && vf_rb_wf(r_buf) && vf_rb_started(r_buf))
+__CPROVER_requires(__CPROVER_w_ok(rpos, sizeof(*rpos)) && vf_rb_rpos_wf(r_buf, rpos))
+__CPROVER_requires(vf_rb_inc_step_pre(r_buf, rpos, data_size))
+__CPROVER_requires(vf_rb_old_avail == vf_rb_avail(r_buf, rpos))
+__CPROVER_assigns(*rpos)
+__CPROVER_ensures(vf_rb_post_inc_step(r_buf, __CPROVER_old(rpos->iov_index),
+    __CPROVER_old(rpos->iov_off), __CPROVER_old(rpos->round_num), data_size, rpos))
+__CPROVER_ensures(vf_rb_rpos_wf(r_buf, rpos) && vf_rb_rpos_norm(r_buf, rpos))
+#ifndef VF_RB_INC_NO_AMOUNT
+/* the available amount drops by exactly the advance */
+__CPROVER_ensures(vf_rb_avail(r_buf, rpos) == vf_rb_old_avail - data_size)
+#endif
+;
+#else
+void
+r_buf_rpos_inc(r_buf_p r_buf, r_buf_rpos_p rpos, size_t data_size)
+__CPROVER_requires(r_buf != NULL && vf_rb_wf(r_buf) && vf_rb_started(r_buf))
 __CPROVER_requires(__CPROVER_w_ok(rpos, sizeof(*rpos)) && vf_rb_rpos_wf(r_buf, rpos))
 /* an accepted cursor, advanced by no more than what was available to it */
 __CPROVER_requires(vf_rb_rpos_norm(r_buf, rpos))
@@ -340,6 +387,8 @@ __CPROVER_ensures(vf_rb_rpos_wf(r_buf, rpos) && vf_rb_rpos_norm(r_buf, rpos))
 __CPROVER_ensures(vf_rb_avail(r_buf, rpos) == vf_rb_old_avail - data_size)
 #endif
 ;
+
+#endif /* VF_RB_INC_STEP */
 
 int
 r_buf_rpos_init(r_buf_p r_buf, r_buf_rpos_p rpos, size_t data_size)
